@@ -231,6 +231,9 @@ func (c *compiler) computeStates() {
 		c.states = append(c.states, &state{index: i, sourceState: -1})
 	}
 	stateMap := container.NewIntSliceMap(func(core []int) interface{} {
+		if last := len(core) - 1; core[last] >= len(c.right) {
+			core = core[:last] // drop the accepting state marker (see below)
+		}
 		s := &state{
 			index:       len(c.states),
 			symbol:      Sym(c.right[core[0]-1]),
@@ -282,7 +285,13 @@ func (c *compiler) computeStates() {
 				}
 			}
 
-			state := stateMap.Get(core).(*state)
+			key := core
+			if i < len(c.grammar.Inputs) && Sym(sym) == c.grammar.Inputs[i].Nonterminal {
+				// This state accepts the i-th input (it is where its end-of-input gets shifted),
+				// so it cannot be shared with a state that has the same core in another context.
+				key = append(core, len(c.right)+i)
+			}
+			state := stateMap.Get(key).(*state)
 			if state.sourceState == -1 {
 				state.sourceState = curr.index
 			}
